@@ -713,6 +713,9 @@ structure RLIn where
   replay : Bool := false
   /-- rate 0, internal writer or loopback source: the limiter does not apply -/
   exempt : Bool := false
+  /-- the OPT carries an EDNS version other than 0: cookies are an EDNS(0) option, the
+  query skips the cookie exchange, pays its token and is left to edns (BADVERS) -/
+  otherVersion : Bool := false
 deriving DecidableEq, Repr
 
 inductive RLOut where
@@ -731,7 +734,7 @@ def cookieMatches (s : RLState) (cid : Nat) (h : Half) : Bool :=
 def rlMsg (s : RLState) (i : RLIn) : RLState × RLOut :=
   if i.replay then (s, .next) else
   if i.exempt then (s, .next) else
-  match i.ck with
+  match (if i.otherVersion then none else i.ck) with
   | some (cid, h) =>
     if s.cached.isNone || cookieMatches s cid h then ({ s with cached := some cid }, .next)
     else if i.udp then
@@ -752,7 +755,7 @@ def rlMsg (s : RLState) (i : RLIn) : RLState × RLOut :=
 def rlWire (s : RLState) (i : RLIn) : RLState × RLOut :=
   if i.replay then (s, .next) else
   if i.exempt then (s, .next) else
-  match i.ck with
+  match (if i.otherVersion then none else i.ck) with
   | some (cid, h) =>
     if s.cached.isNone || cookieMatches s cid h then ({ s with cached := some cid }, .next)
     else if i.udp then
